@@ -1,9 +1,18 @@
 (* Property C02 - concurrent publishers never overlap, lose or reorder each other's messages.
    Statements only; proofs are in Proofs/ (AppenderInv.v defines the invariant AppInv, the admissibility
    conditions and the ghost claim lists; C02Proofs.v the system and reachability). *)
-Require Import V.Base.MachineInt V.Generated.GenConsts V.Model.LogBase V.Model.Descriptor V.Model.Sched
-               V.Model.AppenderThreads V.Oracle.C02Oracle
-               V.Proofs.TailArith V.Proofs.FragArith V.Proofs.AppenderInv V.Proofs.C02Proofs V.Proofs.C02Quiescent.
+Require Import V.Base.MachineInt.
+Require Import V.Generated.GenConsts.
+Require Import V.Model.LogBase.
+Require Import V.Model.Descriptor.
+Require Import V.Model.Sched.
+Require Import V.Model.AppenderThreads.
+Require Import V.Oracle.C02Oracle.
+Require Import V.Proofs.TailArith.
+Require Import V.Proofs.FragArith.
+Require Import V.Proofs.AppenderInv.
+Require Import V.Proofs.C02Proofs.
+Require Import V.Proofs.C02Quiescent.
 Open Scope Z_scope.
 
 (* The invariant holds in every configuration reachable by ANY number of publisher (and environment) threads
